@@ -5,10 +5,12 @@
 //	hcases  writeHeaderOnlyResponse, every Write call recorded             (hook, direct)
 //	fcases  patternFlushWriter: per write, did it flush                    (hook, direct)
 //	gcases  net/http Response.Write (modelled) behind the real flush writer (hook + stdlib)
+//	dcases  the same over a real bufio.Writer: what the connection holds each time the body is asked for more data
 //	ecases  end to end through forwarder.NewHTTPProxy with scripted raw origins and a raw client (e2e.go)
 package main
 
 import (
+	"bufio"
 	"encoding/json"
 	"flag"
 	"fmt"
@@ -166,9 +168,13 @@ type scripted struct {
 	pieces []string
 	got    []string
 	onEOF  func() // what http.Transport does when the body ends: merge the trailer fields that arrived
+	onRead func() // called at every Read call, before anything is returned
 }
 
 func (s *scripted) Read(p []byte) (int, error) {
+	if s.onRead != nil {
+		s.onRead()
+	}
 	for len(s.pieces) > 0 && s.pieces[0] == "" {
 		s.pieces = s.pieces[1:]
 	}
@@ -379,6 +385,68 @@ func gcase(c gcaseJ) (string, error) {
 	out := fmt.Sprintf("{| g_meth := %s; g_resp := %s; g_pats := %s; g_writes := %s; g_flags := %s; g_err := %s |}",
 		coqfmt.Str(c.Meth), coqResp(rj), coqPats(c.Pats), cstrList(rec.writes), coqBools(fw.flags), coqfmt.Bool(err != nil))
 	note(out, len(strings.Join(rj.Body, "")) > 0)
+	return out, nil
+}
+
+// ---------------------------------------------------------------- (d) what is on the connection at every read
+type dcaseJ struct {
+	Meth string
+	R    respJ
+	Pats [][2]byte
+	Cap  int
+}
+
+// recConn is the client connection: it records every Write call made on it.
+type recConn struct{ writes []string }
+
+func (c *recConn) Write(p []byte) (int, error) {
+	c.writes = append(c.writes, string(p))
+	return len(p), nil
+}
+
+// dcase runs Response.Write behind the real pattern writer over a real bufio.Writer (as writeResponse sets
+// them up: the buffer is both the writer and the flusher) and notes, each time the body is asked for more
+// data, how many writes the connection has seen.
+func dcase(c dcaseJ) (string, error) {
+	conn := &recConn{}
+	bw := bufio.NewWriterSize(conn, c.Cap)
+	pw, err := hook.NewPatternFlushWriter(bw, bw, c.Pats...)
+	if err != nil {
+		return "", err
+	}
+	var snaps []int
+	body := &scripted{pieces: append([]string(nil), c.R.Body...)}
+	body.onRead = func() { snaps = append(snaps, len(conn.writes)) }
+	res := c.R.toHTTP(c.Meth, body)
+	if len(c.R.Late) > 0 {
+		body.onEOF = func() {
+			if res.Trailer == nil {
+				res.Trailer = c.R.Late.Clone()
+				return
+			}
+			for k, vv := range c.R.Late {
+				res.Trailer[k] = vv
+			}
+		}
+	}
+	if err := res.Write(pw); err != nil {
+		bw.Flush()
+	} else if err := bw.Flush(); err != nil {
+		return "", err
+	}
+	rj := c.R
+	rj.Body = append(append([]string(nil), body.got...), body.pieces...)
+	sn := make([]string, len(snaps))
+	for i, n := range snaps {
+		sn[i] = fmt.Sprint(n)
+	}
+	out := fmt.Sprintf("{| d_cap := %d; d_meth := %s; d_resp := %s; d_pats := %s; d_snaps := [%s]; d_conn := %s |}",
+		c.Cap, coqfmt.Str(c.Meth), coqResp(rj), coqPats(c.Pats), strings.Join(sn, "; "), cstrList(conn.writes))
+	held := false
+	for i, n := range snaps {
+		held = held || (i > 0 && n < len(conn.writes) && snaps[i] == snaps[i-1])
+	}
+	note(out, held)
 	return out, nil
 }
 
@@ -836,6 +904,63 @@ func main() {
 	ss.shardSize = m.ShardSize
 	writeJSONL(*out, "gcases.jsonl", gj)
 
+	// ---------------------------------------------------------------- (d) connection contents at every read
+	var dc []string
+	var dj []any
+	addD := func(c dcaseJ) {
+		s, err := dcase(c)
+		if err != nil {
+			m.HookProblem = err.Error()
+			return
+		}
+		dc = append(dc, s)
+		dj = append(dj, c)
+	}
+	evPieces := []string{"data: 1\n\n", "data: 2\r\n\r\n", "data: 3\r\r", "id: 7\ndata: x\n", "\n", "\r", "\r\n", ": keep-alive", "d", "event: e\r\ndata: y\r\n\r", "\ndata: tail", "retry: 10\n\r\n", strings.Repeat("z", 40)}
+	nD := 250
+	if thorough {
+		nD = 6000
+	}
+	dkinds := map[string]int{}
+	for k := 0; k < nD; k++ {
+		var pieces []string
+		for q, np := 0, 1+r.Intn(6); q < np; q++ {
+			pieces = append(pieces, r.Pick(evPieces))
+		}
+		rj := respJ{Major: 1, Minor: 1, Code: 200, Status: "200 OK", Hdr: genHeader(r, 3), CL: -1, Body: pieces}
+		if rj.Hdr == nil {
+			rj.Hdr = http.Header{}
+		}
+		var pats [][2]byte
+		switch r.Intn(3) {
+		case 0: // event stream, close-delimited (HTTP/1.0 client)
+			rj.Hdr["Content-Type"] = []string{"text/event-stream"}
+			rj.Close, pats = true, sse
+			dkinds["event-stream/close-delimited"]++
+		case 1: // event stream with chunked coding
+			rj.Hdr["Content-Type"] = []string{"text/event-stream; charset=utf-8"}
+			rj.Chunked, pats = true, sse
+			dkinds["event-stream/chunked"]++
+		default: // any other body with chunked coding
+			rj.Hdr["Content-Type"] = []string{"application/octet-stream"}
+			rj.Chunked, rj.Trailer, pats = true, genTrailer(r), chunk
+			dkinds["chunked"]++
+		}
+		addD(dcaseJ{"GET", rj, pats, []int{1, 2, 3, 5, 8, 16, 33, 64, 257, 4096}[r.Intn(10)]})
+	}
+	for _, n := range []int{4095, 4096, 4097} {
+		big := strings.Repeat("z", n)
+		addD(dcaseJ{"GET", respJ{Major: 1, Minor: 1, Code: 200, Status: "200 OK", Hdr: http.Header{"Content-Type": {"text/event-stream"}}, CL: -1, Close: true, Body: []string{"data: 1\n\n", big, "\n\n", "c"}}, sse, 4096})
+		addD(dcaseJ{"GET", respJ{Major: 1, Minor: 1, Code: 200, Status: "200 OK", Hdr: http.Header{}, CL: -1, Chunked: true, Body: []string{"ab", big, "c"}}, chunk, 4096})
+	}
+	m.Counts["dcases"] = len(dc)
+	m.Dist["dcases_kind"] = dkinds
+	ss.shardSize = 150
+	ss.write("dcases", "dcase", "dcase_model_ok", "dcase_prop_ok", dc)
+	ss.shardSize = m.ShardSize
+	writeJSONL(*out, "dcases.jsonl", dj)
+	m.Samples["dcase"] = dj[len(dj)/2]
+
 	// ---------------------------------------------------------------- (w) http.Handler variant
 	var wc []string
 	var wj []any
@@ -951,6 +1076,16 @@ func runReplay(path string, ss *shardSet, m *meta, sse, chunk [][2]byte) {
 		json.Unmarshal(rp.Case, &c)
 		ss.write("wcases", "wcase", "wcase_model_ok", "wcase_prop_ok", []string{wcase(c)})
 		writeJSONL(ss.dir, "wcases.jsonl", []any{c})
+	case "dcases":
+		var c dcaseJ
+		json.Unmarshal(rp.Case, &c)
+		s, err := dcase(c)
+		if err != nil {
+			m.HookProblem = err.Error()
+			return
+		}
+		ss.write("dcases", "dcase", "dcase_model_ok", "dcase_prop_ok", []string{s})
+		writeJSONL(ss.dir, "dcases.jsonl", []any{c})
 	case "gcases":
 		var c gcaseJ
 		json.Unmarshal(rp.Case, &c)
